@@ -406,6 +406,14 @@ def fit_dtype(rng, mx):
     return rng.choice(main) if main and rng.random() < 0.7 else rng.choice(cands)
 
 
+def _strided(a):
+    """the same logical array as every second element of a larger one (not contiguous)"""
+    big = np.zeros(tuple(2 * x for x in a.shape), a.dtype)
+    view = big[tuple(slice(0, None, 2) for _ in a.shape)]
+    view[...] = a
+    return view
+
+
 def gen_random(ctx):
     rng = ctx.rng
     for _ in range(ctx.scale(1200, 6000)):
@@ -426,8 +434,24 @@ def gen_random(ctx):
         if rng.random() < 0.05:
             pred = np.zeros_like(pred)
         dt = fit_dtype(rng, int(max(pred.max(), ref.max())))
+        pa, ra = pred.astype(dt), ref.astype(dt)
+        if rng.random() < 0.15:
+            # memory layout is not part of a map: every k-th slice of a larger array, a column of an image, Fortran order
+            lay = rng.choice(["strided", "strided", "F"])
+            pa, ra = (_strided(pa), _strided(ra)) if lay == "strided" else (np.asfortranarray(pa), np.asfortranarray(ra))
         for bk in BK_NAMES:
-            yield ("rnd-" + kind, pred.astype(dt), ref.astype(dt), bk)
+            yield ("rnd-" + kind, pa, ra, bk)
+    # row-like maps (1-D, (n,1,1), (1,n,1)) taken as strided views of larger arrays, already in the smallest unsigned dtype
+    for _ in range(ctx.scale(40, 300)):
+        n = rng.randint(5, 14)
+        row = np.array([rng.choice([0, 0, 1, 1, 2]) for _k in range(n)], dtype="uint8")
+        other = row.copy()
+        for _k in range(rng.randint(0, 3)):
+            other[rng.randrange(n)] = rng.choice([0, 1, 2])
+        shape = rng.choice([(n,), (n, 1, 1), (1, n, 1), (1, 1, n), (n, 1)])
+        pa, ra = _strided(row.reshape(shape)), _strided(other.reshape(shape))
+        for bk in BK_NAMES:
+            yield ("row-like strided view", pa, ra, bk)
     # many components around the uint8 / uint16 boundary (n = 254..258), 1-D and 2-D, every backend
     for n in ([254, 255, 256, 257] if ctx.tier == "quick" and not ctx.search else [253, 254, 255, 256, 257, 258, 300]):
         row = np.zeros(2 * n, dtype=np.int64)
